@@ -15,6 +15,8 @@
 (*   setlist(c, li, matcher)          get_list_matcher_mut + mutation      *)
 (*   exec(c, fsch, tokens)            parse with fsch, compile, execute    *)
 (*   execv(c, fsch, tokens)           the same for a value expression      *)
+(*   roundtrip(c)                     serde_json::to_string + deserialize  *)
+(*                                    into a fresh context (a new slot)    *)
 (*   mkval(v)                         Array/Map::try_from_* construction   *)
 (*                                    (every public route must agree)      *)
 (* The result records are what the harness observes at the call's return.  *)
@@ -76,6 +78,8 @@ Apply(S, w, op) ==
                                                     ELSE c.lists[i]])]],
              res |-> ResOk(Nil)]
   ELSE IF op.op = "clone"
+       THEN [w |-> Append(w, w[op.c]), res |-> ResOk(VInt(IntOfNat(Len(w) + 1)))]
+  ELSE IF op.op = "roundtrip"   \* serialize, then deserialize into a fresh context of the same scheme: an equal context
        THEN [w |-> Append(w, w[op.c]), res |-> ResOk(VInt(IntOfNat(Len(w) + 1)))]
   ELSE IF op.op = "take"
        THEN [w |-> Append([w EXCEPT ![op.c].alive = FALSE], w[op.c]),
